@@ -200,10 +200,22 @@ def reader_rules(ctx):
     for nm in ("try_lock_shared", "try_lock_shared_for", "try_lock_shared_until"):
         for f in lr_functions(ctx, nm):
             calls = [st for st in f.stmts.values() if st["k"] in CALLS and (st.get("callee") or {}).get("rec") == LR]
-            ok = len(calls) == 1 and calls[0]["callee"]["name"] == "lock_shared" and path(f, f.s(calls[0]["obj"])) == "this"
-            ops = atomic_ops(f)
-            ctx.ob(rid, ok and not ops, f.where, "%s only forwards to lock_shared()" % nm,
-                   "" if ok and not ops else "it does something else", fn=f.label, inst=f.qname)
+            ls = [c for c in calls if c["callee"]["name"] == "lock_shared" and c.get("obj") and path(f, f.s(c["obj"])) == "this"]
+            # whatever else the try form does, it takes part in the protocol only through lock_shared(): neither it nor a
+            # helper it calls writes a protocol variable
+            writers = [op for op in atomic_ops(f) if op["op"] != "load"]
+            for c in calls:
+                g = ctx.fb.callee_fn(f, c)
+                if g is not None and g.name != "lock_shared":
+                    writers += [op for op in atomic_ops(g) if op["op"] != "load"]
+            rets = [r for r in f.stmts.values() if r["k"] == "ReturnStmt" and f.children(r)]
+            from_ls = all(any(d["id"] == c["id"] for c in ls for d in f.descendants(r)) or
+                          not any(d["k"] in CALLS and (d.get("callee") or {}).get("rec") == LR for d in f.descendants(r))
+                          for r in rets)
+            ok = len(ls) >= 1 and not writers and from_ls
+            ctx.ob(rid, ok, f.where, "%s obtains its handle from lock_shared() and writes no protocol variable itself" % nm,
+                   "" if ok else "lock_shared calls: %d, protocol writes: %s" % (len(ls), [o["obj"] for o in writers]),
+                   fn=f.label, inst=f.qname)
 
 
 def deleter_rules(ctx):
